@@ -6,3 +6,6 @@ Definition SOURCE_PRIORITY_MIN : N := 0.
 Definition SOURCE_PRIORITY_DEFAULT : N := 100.
 Definition SOURCE_PRIORITY_MAX : N := 200.
 Definition DMX_UNIVERSE_SIZE : N := 512.
+Definition HOUSEKEEPING_MS : N := 10000.
+Definition RPC_INITIAL_BUFFER : N := 2048.
+Definition RPC_MAX_BUFFER : N := 1048576.
